@@ -461,6 +461,9 @@ class Exec:
                 if k not in v.v: raise Inconclusive('downcast to absent variant %s of %r' % (p[1], v))
                 v = Agg(v.v[k])
             elif p[0] in ('index', 'cindex'):
+                if hasattr(v, 'is_strlike') or isinstance(v, StrLit):
+                    from . import strings
+                    v = strings.index_project(self, v, frame[p[1]] if p[0] == 'index' else mk_int(p[1], 'usize')); continue
                 if p[0] == 'index':
                     idx = frame[p[1]]
                     if idx.const() is None:
@@ -706,11 +709,14 @@ class Exec:
         if m and m.group(1) == 'Len':
             v = self.deref(self.read(frame, self.parse_place(m.group(2))))
             if isinstance(v, Agg): return mk_int(len(v.f), 'usize')
+            if hasattr(v, 'length'): return v.length()
+            if isinstance(v, StrLit): return mk_int(len(v.b), 'usize')
             raise Inconclusive('Len of %r' % (v,))
         if m and m.group(1) == 'PtrMetadata':
             v = self.deref(self.operand(frame, m.group(2)))
             if isinstance(v, Agg): return mk_int(len(v.f), 'usize')
             if hasattr(v, 'length'): return v.length()
+            if isinstance(v, StrLit): return mk_int(len(v.b), 'usize')
             raise Inconclusive('PtrMetadata of %r' % (v,))
         m = re.match(r'^(.*) as (.+?) \((PointerCoercion.*|Transmute|PtrToPtr|Subtype)\)$', s)
         if m: return self.operand(frame, m.group(1))
